@@ -2,6 +2,7 @@
 from __future__ import annotations
 
 import copy
+import json
 import math
 import random
 
@@ -109,16 +110,32 @@ def gen_netlist(rng: random.Random, max_comps=5, max_pins=4, kind="random", min_
             comp["Sfrac"] = [[[str(z[0]), str(z[1])] for z in row] for row in U]
             comp["S"] = [[[float(z[0]), float(z[1])] for z in row] for row in U]
         comps.append(comp)
+    # two placements of ONE model object (they share their Pin objects), often linked through equally named pins
+    twin = None
+    if nc >= 2 and rng.random() < 0.3:
+        b = rng.randrange(1, nc)
+        a = rng.randrange(0, b)
+        comps[a].pop("bare", None)
+        comps[a]["shared"] = rng.randint(1, 10 ** 6)
+        comps[b] = copy.deepcopy(comps[a])
+        twin = (a, b)
     pins = [(c, k) for c in range(nc) for k in range(comps[c]["n"])]
     rng.shuffle(pins)
     conns = []
     target = rng.choice([0, 1, 2, 3, 4, 6, 8])
     used = set()
+    if twin and rng.random() < 0.75:
+        ks = list(range(comps[twin[0]]["n"]))
+        rng.shuffle(ks)
+        for k in ks[:rng.choice([1, 1, 2])]:
+            conns.append([[twin[0], k], [twin[1], k]])
+            used.add((twin[0], k))
+            used.add((twin[1], k))
     # force some multi-links / cycles with fixed probability
     if nc >= 2 and rng.random() < 0.4:
         a, b = rng.sample(range(nc), 2)
-        pa = [(a, k) for k in range(comps[a]["n"])]
-        pb = [(b, k) for k in range(comps[b]["n"])]
+        pa = [(a, k) for k in range(comps[a]["n"]) if (a, k) not in used]
+        pb = [(b, k) for k in range(comps[b]["n"]) if (b, k) not in used]
         rng.shuffle(pa)
         rng.shuffle(pb)         # several links between one pair, in permuted pin order (3-cycles and longer included)
         for x, y in list(zip(pa, pb))[:rng.choice([2, 2, 3, 3, 4])]:
@@ -177,6 +194,11 @@ def build(desc, shuffle=False):
         conns = [c if rng.random() < 0.5 else [c[1], c[0]] for c in conns]
         rng.shuffle(expo)
     models = [comp_model(c) for c in comps]
+    shared = {}
+    for i, c in enumerate(comps):
+        if c.get("shared") and not c.get("bare") and not c.get("ps"):
+            key = (c["shared"], c["n"], json.dumps(c["S"]), tuple(c.get("perm") or []))
+            models[i] = shared.setdefault(key, models[i])         # the SAME Model object placed again
     if desc.get("style", "ctor") == "ctor":
         sts = {i: Structure(model=models[i]) for i in order}
         connections = {}
